@@ -2644,6 +2644,53 @@ fn status_queries_do_not_touch_a_saved_session() {
     report(name, "C08,C03", "10 operator queries x issued while the client is away (and also while connected)", cases, fail);
 }
 
+/// C08 / C01: UNSUBSCRIBE then SUBSCRIBE again while an older delivery on that filter is still unacknowledged.  Unacknowledged
+/// publishes are booked per filter_idx (which the old and the new subscription share), so on the pinned tree the NEW
+/// subscription is rewound below its start when the session resumes and a message accepted while the client was not
+/// subscribed is delivered: recorded as a KNOWN FINDING (same bookkeeping as the plain+shared entry), own obligation.
+// @native props=C08 tier=quick fn=Router::handle_disconnection (rewind per filter_idx)+handle_device_payload(Unsubscribe)
+#[test]
+fn resubscription_is_not_rewound_below_its_start_when_the_session_resumes() {
+    let name = "rumqttd::Router::handle_disconnection#resubscription_rewound_below_its_start";
+    let mut cases = 0u64;
+    let mut fail: Option<String> = None;
+    'outer: for ack_first in [false, true] {
+        cases += 1;
+        let desc = format!("persistent s: SUBSCRIBE t QoS 1; m1 forwarded{}; UNSUBSCRIBE t; m2 published; SUBSCRIBE t again; m3 forwarded, not acknowledged; link fails; s resumes", if ack_first { " and acknowledged" } else { ", not acknowledged" });
+        let mut r = new_router();
+        let p = connect(&mut r, "p", true).unwrap();
+        let c = connect(&mut r, "s", false).unwrap();
+        send(&mut r, &c, vec![subscribe(1, &[("t", 1)])]);
+        let _ = drain(&mut r, &c);
+        send(&mut r, &p, vec![publish("t", 0, 0, "m1", false)]);
+        let first = drain(&mut r, &c);
+        if ack_first {
+            let acks: Vec<Packet> = first.iter().filter_map(|n| match n { RNotification::Forward(Forward { publish, .. }) => Some(puback(publish.pkid)), _ => None }).collect();
+            send(&mut r, &c, acks);
+        }
+        send(&mut r, &c, vec![unsubscribe(2, &["t"])]);
+        let _ = drain(&mut r, &c);
+        send(&mut r, &p, vec![publish("t", 0, 0, "m2-while-unsubscribed", false)]);
+        send(&mut r, &c, vec![subscribe(3, &[("t", 1)])]);
+        let _ = drain(&mut r, &c);
+        send(&mut r, &p, vec![publish("t", 0, 0, "m3", false)]);
+        let _ = drain(&mut r, &c);
+        r.events(c.id, Event::Disconnect);
+        settle(&mut r);
+        let c2 = connect(&mut r, "s", false).unwrap();
+        let got: Vec<String> = receive_all(&mut r, &c2).into_iter().map(|g| g.1).collect();
+        if got.iter().any(|m| m == "m2-while-unsubscribed") {
+            fail = Some(format!("input=[{}] detail=[after the resume the client was sent {:?}: m2 was accepted while it had no subscription]", desc, got));
+            break 'outer;
+        }
+        if !got.iter().any(|m| m == "m3") {
+            fail = Some(format!("input=[{}] detail=[after the resume the client was sent {:?}: the unacknowledged m3 is missing]", desc, got));
+            break 'outer;
+        }
+    }
+    report(name, "C08", "older delivery acknowledged or not before the UNSUBSCRIBE", cases, fail);
+}
+
 /// C08: a saved session survives a refused reconnect (broker full) and exists for a client without subscriptions
 // @native props=C08,C19 tier=quick fn=Router::handle_new_connection+Graveyard::save_state
 #[test]
